@@ -7,6 +7,7 @@ import ast
 from ..guards import Lit, Normaliser, facts_at
 from ..index import mangle, walk_no_nested
 from ..report import Result
+from ..guards import canon
 from ..inline import with_helpers
 from ..rules import rd_atomic, re_guards
 from ..rules.rc_owner import component_info
@@ -117,26 +118,37 @@ def check(ctx) -> Result:
                     res.bad("E-range-validator", inst, f"{k.module.rel}:{k.node.lineno}", k.name, "component has no validate()", construct=inst)
                 else:
                     re_guards.range_validator(ctx, res, val, f"self.{acc.name}", lo, hi, norm=alias_norm(val.node, None), label=f"{val.qualname}:{fname}")
-                    # validate dominates every use of the accessor in get_unitary
+                    # the resolved value is range-checked on every path before it enters the matrix arithmetic
+                    # (helpers expanded: `self.validate()`, a checker that takes the value, a local that holds it)
                     gu = k.methods.get("get_unitary")
-                    cfg = ctx.cfg(gu)
-                    dom = cfg.dominators()
-                    vnodes = [nd.id for nd in cfg.nodes if nd.kind == "stmt" and isinstance(nd.ast, ast.Expr) and src(nd.ast.value) == "self.validate()"]
-                    # methods of the component that read the resolved value (directly or through other methods)
-                    readers = set()
-                    for _r in range(3):
-                        for mn_, mf_ in k.methods.items():
-                            if mn_ in ("validate", "get_unitary") or mn_ in readers:
-                                continue
-                            if any(isinstance(x, ast.Attribute) and isinstance(x.value, ast.Name) and x.value.id == "self" and (x.attr == acc.name or x.attr in readers) for x in walk_no_nested(mf_.node)):
-                                readers.add(mn_)
-                    uses = [nd for nd in cfg.nodes if nd.ast is not None and nd.kind in ("stmt", "test") and any(isinstance(x, ast.Attribute) and isinstance(x.value, ast.Name) and x.value.id == "self" and (x.attr == acc.name or x.attr in readers) for e in _node_exprs(nd) for x in ast.walk(e))]
-                    if not uses:
-                        res.frozen(False, "LB-validate-dominates", gu.qualname, gu.site(), gu.qualname, "", f"no read of the resolved value ({acc.name}) recognised in the matrix construction", construct=gu.qualname)
-                        continue
-                    okd = bool(vnodes) and all(any(v in dom[u.id] for v in vnodes) for u in uses)
-                    res.add(okd, "LB-validate-dominates", gu.qualname, gu.site(), gu.qualname, "self.validate() dominates every read of the resolved value",
-                            "matrix construction can read the parameter value without passing validate(): an invalid value does not surface as a compilation error", construct=gu.qualname)
+                    guh = with_helpers(ctx, gu, exclude=(acc.name,), only_private=False, inline_locals=False)
+                    nrm = Normaliser(lambda e: repr(e.value) if isinstance(e, ast.Constant) else None, fn=guh.node)
+                    T = f"self.{acc.name}"
+                    par_g = {c_: n_ for n_ in ast.walk(guh.node) for c_ in ast.iter_child_nodes(n_)}
+                    arith = []
+                    for x in ast.walk(guh.node):
+                        if isinstance(x, (ast.Name, ast.Attribute)) and isinstance(getattr(x, "ctx", None), ast.Load) and nrm.term(x) == T:
+                            p_ = par_g.get(x)
+                            if isinstance(p_, ast.BinOp) or (isinstance(p_, ast.Call) and x in p_.args and src(p_.func).startswith(("np.", "math.", "numpy."))) or isinstance(p_, ast.UnaryOp):
+                                st_ = x
+                                while not isinstance(st_, ast.stmt):
+                                    st_ = par_g[st_]
+                                if not isinstance(st_, ast.If):
+                                    arith.append((x, st_))
+                    if not arith:
+                        res.frozen(False, "LB-validate-dominates", gu.qualname, gu.site(), gu.qualname, "", f"no arithmetic use of the resolved value ({acc.name}) recognised in the matrix construction", construct=gu.qualname)
+                    else:
+                        bad_use = None
+                        for x, st_ in arith:
+                            fa = facts_at(guh.node, st_, nrm) or []
+                            units = [next(iter(f_)) for f_ in fa if len(f_) == 1]
+                            lo_ok = any(l == canon(">=", T, repr(lo)) for l in units)
+                            hi_ok = any(l == canon("<=", T, repr(hi)) for l in units)
+                            if not (lo_ok and hi_ok):
+                                bad_use = (x, st_, fa)
+                                break
+                        res.add(bad_use is None, "LB-validate-dominates", gu.qualname, gu.site(), gu.qualname, f"every arithmetic use of the resolved value is dominated by the range check [{lo}, {hi}] on that value",
+                                "matrix construction can use the parameter value without the range check having passed on it: an invalid value does not surface as a compilation error" + (f" (at `{src(bad_use[1])[:60]}`; established: " + "; ".join(" or ".join(map(str, f_)) for f_ in bad_use[2][:4]) + ")" if bad_use else ""), construct=gu.qualname)
     res.floor("late-binding accessors", n_acc, 3)
 
     # check_loss (used by Circuit.bs/ps/loss): accepted set of the resolved value is [0,1]
